@@ -171,6 +171,8 @@ register(PropertySpec(
              "hybrid_new and the @predicate wrapper under each constant mode reach only their own arm"),
         Rule("EVAL-NO-CONTEXT", _lazy("modes", "rule_eval_no_context"), 5,
              "the mode-off switch of an evaluation also sets the expression context (open `with <query>` blocks) aside, so user code that builds a query during evaluation is not bound to the enclosing block's query"),
+        Rule("ALLOC-AS-UNDECORATED", _lazy("registry", "rule_alloc_as_undecorated"), 2,
+             "outside a block a decorated class is allocated by the __new__ the undecorated class would use, with the arguments of the call"),
     ],
     explanation="The mode is a context variable with a closed set of writers, so confinement is a pairing property over "
                 "all exits of the code that writes it. Decided on the CFG with exceptional and generator-suspension "
@@ -644,6 +646,8 @@ register(PropertySpec(
              "registration does not look attributes up on the instance before its __init__ has run"),
         Rule("REG-LIVE", _lazy("registry", "rule_reg_live_conclusions"), 1,
              "the per-evaluation reset reaches variables that only a conclusion mentions"),
+        Rule("ALLOC-AS-UNDECORATED", _lazy("registry", "rule_alloc_as_undecorated"), 2,
+             "outside a block a decorated class is allocated by the __new__ the undecorated class would use, with the arguments of the call"),
     ],
     explanation="Registry discipline is ownership: a single writer, on a must-pass-through path of the concrete "
                 "constructor arm, keyed by the runtime class; the symbolic arm provably (call-graph closure) cannot "
